@@ -248,7 +248,7 @@ func checkC12(t *testing.T, job *Job, res *Result) {
 		if tier == "thorough" {
 			b = Bounds{D: 3, S: 0}
 		}
-		runS(t, job, res, "C12", scs, b, 0)
+		runS(t, job, res, "C12", withReversed(scs), b, 0)
 	}
 	res.Engine = "F+S"
 }
